@@ -181,6 +181,129 @@ func c13BuildLists(tier string) core.Source {
 	}}
 }
 
+// c13Match is the reference matcher for rules without wildcards (rsync's
+// exclude.c semantics): a trailing slash restricts the rule to directories, a
+// leading slash anchors it at the transfer root, a rule containing a slash
+// matches the tail of the path on a component boundary, a plain name matches
+// the last component.
+func c13Match(pat, p string, isDir bool) bool {
+	if strings.HasSuffix(pat, "/") && len(pat) > 1 {
+		if !isDir {
+			return false
+		}
+		pat = strings.TrimSuffix(pat, "/")
+	}
+	if !strings.Contains(pat, "/") {
+		return pat == path.Base(p)
+	}
+	if strings.HasPrefix(pat, "/") {
+		return pat[1:] == p
+	}
+	return p == pat || strings.HasSuffix(p, "/"+pat)
+}
+
+func c13ExpectedShapes(src tm.Tree, rules []c13Rule) tm.Tree {
+	excluded := func(p string, isDir bool) bool {
+		for _, r := range rules {
+			if c13Match(r.name, p, isDir) {
+				return !r.include
+			}
+		}
+		return false
+	}
+	var out tm.Tree
+	for _, e := range src {
+		parts := strings.Split(e.Path, "/")
+		excl := false
+		for i := 1; i <= len(parts); i++ {
+			q := strings.Join(parts[:i], "/")
+			if excluded(q, i < len(parts) || e.Type == tm.Dir) {
+				excl = true
+				break
+			}
+		}
+		if !excl {
+			out = append(out, e)
+		}
+	}
+	return out
+}
+
+// c13BuildShapes: rules with a trailing slash, a leading slash or a slash
+// inside. The implementation may honour them (rsync semantics) or refuse them;
+// a session that succeeds with any other selection is a violation.
+func c13BuildShapes(tier string) core.Source {
+	drive.Quiet()
+	f := func(p string) tm.Entry { return tm.File(p, []byte("data:"+p), 0o644, tm.Past) }
+	d := func(p string) tm.Entry { return tm.D(p, 0o755, tm.Past) }
+	// the names b and d occur as file and as directory
+	tree := tm.Tree{f("a"), f("b"), d("d"), f("d/a"), d("d/b"), f("d/b/x"), f("d/c"), d("d/d"), f("d/d/a"), f("d/d/b"), d("d/e"), f("d/e/zz"), d("e"), f("e/b"), f("e/c"), f("e/d"), f("zzz")}
+	pats := []string{"a/", "b/", "d/", "e/", "/a", "/b", "/d", "/zz", "d/a", "d/b", "d/d", "e/b", "b/x", "/d/a", "/d/d/", "d/d/", "/e/", "/d/b", "b", "d"}
+	if tier != "thorough" {
+		pats = []string{"b/", "d/", "/a", "/b", "/d", "d/a", "d/b", "d/d", "/d/d/", "d/d/", "b", "d"}
+	}
+	var pool []c13Rule
+	for _, n := range pats {
+		pool = append(pool, c13Rule{false, n}, c13Rule{true, n})
+	}
+	var lists [][]c13Rule
+	for _, a := range pool {
+		lists = append(lists, []c13Rule{a})
+		for _, b := range pool {
+			if a.name != b.name {
+				lists = append(lists, []c13Rule{a, b})
+			}
+		}
+	}
+	type cs struct {
+		list int
+		arr  string
+		del  bool
+	}
+	var cases []cs
+	for li := range lists {
+		for _, arr := range drive.Arrangements {
+			cases = append(cases, cs{li, arr, false})
+		}
+	}
+	return core.FuncSource{N: len(cases), F: func(i int) core.Result {
+		c := cases[i]
+		rules := lists[c.list]
+		args := append([]string{"-rt"}, c13Args(rules, c.list)...)
+		sc := &syncCase{Arr: c.arr, Args: args, Src: tree, Form: "contents"}
+		res := core.Result{Case: fmt.Sprintf("rule shapes=%v %s", rules, sc.String())}
+		sr, err := sc.run(false)
+		defer cleanup(sr.Dir)
+		if err != nil {
+			res.Inconcl = err.Error()
+			return res
+		}
+		cnt(&res, "transitions", 1)
+		cnt(&res, "traces_validated_against_impl", 1)
+		cnt(&res, "states", int64(len(tree)))
+		if !sr.Out.OK() {
+			// refused: allowed for syntax the implementation cannot honour, provided nothing else happened
+			res.Outcome = "refused"
+			return res
+		}
+		want := c13ExpectedShapes(tree, rules)
+		if d := tm.Diff(want, sr.After, tm.Fields{}); len(d) > 0 {
+			shape := "path"
+			switch {
+			case strings.HasSuffix(rules[0].name, "/"):
+				shape = "dir-only"
+			case strings.HasPrefix(rules[0].name, "/"):
+				shape = "anchored"
+			}
+			res.Fail = core.Fail("selection_differs", fmt.Sprintf("rules %v were accepted but the selection is not the one they denote: %s", rules, trunc(strings.Join(d, " ; "), 500)), "part", "shapes", "arr", c.arr, "first_rule_shape", shape)
+			return res
+		}
+		res.Nontrivial = len(want) != len(tree)
+		res.Outcome = fmt.Sprintf("honoured/filtered=%v", res.Nontrivial)
+		return res
+	}}
+}
+
 // c13BuildUnsupported: rule syntax the implementation cannot honour must
 // produce an error (and no crash), never a silently different selection.
 func c13BuildUnsupported(tier string) core.Source {
@@ -229,11 +352,11 @@ func init() {
 	core.Register(&core.Prop{
 		ID:    "C13",
 		Level: "model_checking",
-		Rule: "lists: every rule list of length 0..2 (thorough 0..3) over {exclude, include} x names {a,b,c,d,e,zz} (files and directories in every sort position and at several depths; zz never matches at top level), spelled with --exclude/--include and -f, on 3 trees (flat, nested, depth 3 with recurring names) in all 5 arrangements; the destination entry set and bytes must equal the reference filter (first rule whose name equals the base name decides; excluded directory => subtree absent). unsupported: wildcard patterns must make the session fail without crashing. " +
+		Rule: "lists: every rule list of length 0..2 (thorough 0..3) over {exclude, include} x names {a,b,c,d,e,zz} (files and directories in every sort position and at several depths; zz never matches at top level), spelled with --exclude/--include and -f, on 3 trees (flat, nested, depth 3 with recurring names) in all 5 arrangements; the destination entry set and bytes must equal the reference filter (first rule whose name equals the base name decides; excluded directory => subtree absent). shapes: every rule list of length 1..2 over {exclude, include} x rules with a trailing slash (directories only), a leading slash (anchored) or a slash inside (path tail), on a tree where names occur both as file and as directory, in all 5 arrangements: the session must either be refused or produce exactly the selection the rules denote. unsupported: wildcard patterns must make the session fail without crashing. " +
 			"states = source entries judged, transitions = sessions; non-trivial = rule list that filters at least one entry",
 		Assum: []string{"plain-name rules only (no '/', no wildcard) as the property states"},
 		Parts: func(tier string) []core.Part {
-			return []core.Part{{Name: "lists", Build: c13BuildLists}, {Name: "unsupported", Build: c13BuildUnsupported}}
+			return []core.Part{{Name: "lists", Build: c13BuildLists}, {Name: "shapes", Build: c13BuildShapes}, {Name: "unsupported", Build: c13BuildUnsupported}}
 		},
 	})
 }
